@@ -23,6 +23,10 @@ of a member of the verdict family read from the class's __bool__ and
 oracles(), data dependence on that family). ROW-ALIGNED - TableTemplate
 slicing selects the rows of columns and highlights with the same index and
 joining stacks both, self before other; headers and units are carried over.
+JOIN-AXIS - the flags of a column are joined along the axis its column is
+joined along (axis read from the number of dimensions of the column; hstack
+of the two lists of flag arrays, or hstack column by column when builders
+hand flag columns with a unit axis, join another axis: F25).
 LEN-ALIGNED - where both are linear in the same symbols the highlight column
 and the data column of a table have equal symbolic length. HL-WRAP - the
 highlight role wraps a cell exactly when its flag is true; cells and flags
